@@ -6,7 +6,7 @@ import random
 from .. import tlc, tracecheck, extract
 from ..core import REPO, uncps
 from ..lexrec import (LexRecorder, sigma_strings, SIGMA, SIGMA_QUICK,
-                      random_unicode, opener_mixes, notable_inputs, long_token_inputs, rule_samples)
+                      random_unicode, opener_mixes, notable_inputs, long_token_inputs, rule_samples, compat_keyword_inputs)
 
 MC = """---- MODULE MC_LexScan ----
 EXTENDS LexScan
@@ -96,6 +96,7 @@ def run(ctx):
     texts += mixes
     texts += notable_inputs() + long_token_inputs()
     texts += rule_samples(rng, 10 if quick else 60)
+    texts += compat_keyword_inputs(rng, 40 if quick else 400)
     fixtures = repo_texts()
     texts += [t[:400] for t in fixtures] + [t[i:i + 200] for t in fixtures for i in range(0, min(len(t), 2000), 200)]
     rec = LexRecorder()
